@@ -35,7 +35,12 @@ namespace vh::pk {
         // max_thread_count bounds the number of concurrently existing tasks per queue: keep it above
         // the number of tasks a workload lets block on each other (else the configuration itself
         // deadlocks the program), but small enough that staged tasks are converted in several steps
-        int64_t min_tc = P.get("rt.min_thread_count", 16);
+        // (a queue converts staged tasks while pending work exists only if max_thread_count >= live thread
+        // objects + min_add_new_count, and live objects include up to max_terminated_threads finished ones:
+        // with tasks that poll - barrier::wait, yield_while - a limit closer than that to the number of
+        // tasks the program needs starves the staged ones for good. That is the limit doing what it says,
+        // not a property violation, so the drawn limit keeps that distance.)
+        int64_t min_tc = P.get("rt.min_thread_count", 16) + 10 + 20 + 2;
         P.set(key("max_thread_count"), adverse && r.chance(1, 2) ? r.range(min_tc, min_tc + 16) : 1000);
         P.set(key("min_add_new_count"), adverse ? r.range(1, 10) : 10);
         P.set(key("max_add_new_count"), adverse ? r.range(1, 10) : 10);
